@@ -20,9 +20,15 @@ from . import common
 from .common import Check, Model
 
 ASSUMPTIONS = [
-    "C06 model: Incr/Computation.v, Incr/Lifecycle.v - hand-written control machines (Computation, StreamItemQueue "
-    "control flags, WorkQueue.cancel over lists of tasks/streams, executor hook bookkeeping, aclosing); tied to the "
-    "code by direct scripted drives of Computation/StreamItemQueue and by acceptance of traces recorded from real runs",
+    "C06 model: Incr/Computation.v, Incr/Lifecycle.v - hand-written control machines (Computation; StreamItemQueue "
+    "control flags with the bounded entries queue, blocked/parked producer, _settle_parked, failure and "
+    "cancellation-turned-into-failure; WorkQueue.cancel over a table of tasks; executor hook bookkeeping; aclosing); "
+    "tied to the code by direct scripted drives of Computation / StreamItemQueue / map_async_iterable and by "
+    "acceptance of traces recorded from real runs",
+    "StreamItemQueue machine: macro steps (the loop runs only at QTick); the content of the entries (batching, "
+    "_stopped) is not modelled; the direct drive does not combine a draining consumer with pending item futures; "
+    "the machine excludes a producer that swallows its cancellation and goes on pushing / finishing (observed in "
+    "lazy execution under an abort signal); recorded traces of that kind are skipped and counted",
     "runtime part NOT proved: 'the event loop reaches quiescence' and 'promptly' are decided by exploration only "
     "(asyncio.all_tasks after draining a fresh loop; asyncio.wait_for budget of 2 s per await of the caller)",
     "a cancelled asyncio task is given 40 loop iterations to settle before it is judged leaked",
@@ -124,6 +130,15 @@ class World:
             return spec
         if "$gate" in spec:
             name = spec["$gate"] or path
+            if spec.get("coro"):
+                # a coroutine resolver: its finaliser shows WHEN the library let it settle
+                async def coro_resolver(_info, _spec=spec, _name=name, **_args):
+                    self.trace.append(("res_start", _name))
+                    try:
+                        return await self.gate(_name, _spec)
+                    finally:
+                        self.trace.append(("res_final", _name))
+                return coro_resolver
 
             def resolver(_info, _spec=spec, _name=name, **_args):
                 return self.gate(_name, _spec)
@@ -212,6 +227,7 @@ class World:
         except Exception:  # noqa: BLE001
             pass
         rec["pending_gates_awaited"] = len([n for n in self.pending_gates()])
+        rec["_pending_gate_names"] = list(self.pending_gates())
         self.hook_calls.append(rec)
         self.trace.append(("hook", rec["background"]))
 
@@ -613,6 +629,10 @@ async def drive(scen, sched_seed, stop, recorder=None):
             out.leaked = sorted(_coro_name(t) for t in left)
         out.gates_left = len(world.pending_gates())
         out.hooks_before_release = len(world.hook_calls)
+        for h in world.hook_calls:
+            # resolver futures that were in flight when the hook fired and were cancelled only afterwards
+            # (judged before the driver itself cancels or releases anything)
+            h["cancelled_after_hook"] = [n for n in h.pop("_pending_gate_names", []) if world.gates[n][0].cancelled()]
         if left:
             # the world goes on: do the tasks settle once the remaining resolvers answer?
             for _ in range(200):
@@ -631,6 +651,9 @@ async def drive(scen, sched_seed, stop, recorder=None):
             if left2:
                 await asyncio.gather(*left2, return_exceptions=True)
         out.sources = [s.summary() for s in world.sources]
+        for h in world.hook_calls:
+            h.pop("_pending_gate_names", None)
+            h.setdefault("cancelled_after_hook", [])
         out.hooks = list(world.hook_calls)
         out.trace = list(world.trace)
         if recorder is not None:
@@ -680,8 +703,10 @@ def run_scenario(scen, sched_seed, stop, recorder=None):
 
 # --------------------------------------------------------------------------- scenarios
 
-def G(v=None, name=None, err=None):
+def G(v=None, name=None, err=None, coro=False):
     d = {"$gate": name}
+    if coro:
+        d["coro"] = True
     if err is not None:
         d["err"] = err
     else:
@@ -738,6 +763,11 @@ def base_scenarios():
         {"hero": {"id": 1, "nn": G(err="boom"), "slow": G("s")}, "other": {"name": G("o")}})
     add("defer-initial-nonnull-raises", "incr", "{ hero { id nn ... @defer { slow } } other { ... @defer { name } } }",
         {"hero": {"id": 1, "nn": G(err="boom"), "slow": G("s")}, "other": {"name": G("o")}})
+    add("defer-root-nonnull-raises", "incr", "{ nn hero { id ... @defer { name slow } } }",
+        {"nn": G(err="boom"), "hero": {"id": 1, "name": G("n", coro=True), "slow": G("s", coro=True)}})
+    add("defer-coroutine-resolvers", "incr", "{ a hero { id ... @defer { name slow } } other { ... @defer { name } } }",
+        {"a": G("x", coro=True), "hero": {"id": 1, "name": G("n", coro=True), "slow": G(err="boom", coro=True)},
+         "other": {"name": G("o", coro=True)}})
     add("defer-async-parent", "incr", "{ hero { id ... @defer { name } } }",
         {"hero": G({"id": 1, "name": G("n")})})
 
@@ -849,8 +879,19 @@ def judge(scen, out, stop):
     for h in hooks:
         if h["background"]:
             add("hook-early", f"hook fired while {h['background']} background future(s) were outstanding")
-        if h["pending_incremental"]:
-            add("hook-early", f"hook fired while {h['pending_incremental']} incremental future(s) were pending")
+        if h.get("cancelled_after_hook"):
+            add("hook-early", f"async_work_finished fired while work of the execution was still unsettled: the "
+                              f"resolver future(s) {h['cancelled_after_hook']} were cancelled only after the hook")
+    if scen["kind"] != "sub" and len(hooks) == 1:
+        tr = out.trace
+        hi = next((i for i, e in enumerate(tr) if e[0] == "hook"), None)
+        late = [e[1] for e in tr[hi + 1:] if e[0] == "src_close"] if hi is not None else []
+        if late:
+            add("hook-early", f"async_work_finished fired before the source(s) {late} were closed")
+        late = [e[1] for e in tr[hi + 1:] if e[0] == "res_final"] if hi is not None else []
+        if late:
+            add("hook-early", f"async_work_finished fired before the resolver coroutine(s) {late} had settled "
+                              f"(their finalisers ran after the hook)")
     return v
 
 
@@ -865,6 +906,8 @@ def is_nontrivial(out):
 K_ORPHAN = "abort-signal-wrapper-cancelled:source-anext-orphaned"
 K_TWICE = "stream-source-closed-twice:abort-races-producer-failure"
 K_CANCELLED_LIST = "cancelled-list-completion:class-source-not-closed"
+K_HOOK_EARLY = "hook-fired-before-cancelled-deferred-work-settled"
+K_ABORT_HANG = "abort-with-pending-early-stream-item:consumer-never-released"
 
 ST_CODE = {None: 0, "pending": 1, "fulfilled": 2, "rejected": 3}
 
@@ -1405,7 +1448,7 @@ def random_scenario(rng, i):
         if r < p_err:
             return G(err="boom")
         if r < 0.75:
-            return G(v)
+            return G(v, coro=rng.random() < 0.3)
         return v
 
     def items(n, with_defer=False):
@@ -1489,6 +1532,11 @@ def canon_key(key, cls, scen, out):
         return K_TWICE
     if cls == "source-not-closed" and not out.leaked:
         return K_CANCELLED_LIST
+    if cls == "hook-early" and scen["kind"] == "incr":
+        return K_HOOK_EARLY
+    if out.released == "hang" and cls in ("hang-after-abort", "hook-count", "task-leak", "source-not-closed") \
+            and scen["kind"] == "incr" and scen.get("early"):
+        return K_ABORT_HANG
     return key
 
 
@@ -1575,6 +1623,12 @@ def run(tier):
                 comp_cases.append(comp_case(tr))
                 comp_meta.append((ctx, tr))
             for tr in out.siq_traces:
+                evs = tr["events"]
+                if 7 in evs and any(e in (2, 3, 5, 6) for e in evs[evs.index(7):]):
+                    # the producer swallowed its cancellation and went on producing (lazy execution under an
+                    # abort signal: with_abort_signal swallows CancelledError); outside the machine's fragment
+                    ck.count("skipped_out_of_fragment")
+                    continue
                 case, nev = queue_case(tr)
                 q_cases.append(case)
                 q_meta.append((ctx, tr, nev))
@@ -1586,6 +1640,7 @@ def run(tier):
     for scen, seed, stop in todo:
         one(scen, seed, stop)
     ck.count("corpus_cases", len(todo))
+    run_repro_scripts(ck)
     for scen in scens:
         for early in (False, True):
             for signal in ((False, True) if scen["kind"] != "exec" or thorough else (True,)):
@@ -1642,6 +1697,34 @@ def run(tier):
         ck.count("stream_queue_traces", len(q_cases))
         ck.count("hook_traces", len(h_cases))
     return ck.finish()
+
+
+REPRO_KEYS = {"F1": K_UNSTARTED, "F3": K_ORPHAN, "F4": K_TWICE, "F5": K_CANCELLED_LIST, "F6": K_HOOK_EARLY, "F7": K_ABORT_HANG}
+
+
+def run_repro_scripts(ck):
+    """Stand-alone minimal scripts of the findings made so far (corpus/C06/repro_F*.py): exit 1 = violation."""
+    import os
+    import re
+    import subprocess
+    import sys
+    d = common.CORPUS / "C06"
+    for path in sorted(d.glob("repro_F*.py")):
+        tag = re.match(r"repro_(F\d+)", path.name).group(1)
+        env = dict(os.environ, PYTHONPATH=str(common.REPO / "src"), PYTHONHASHSEED="0")
+        try:
+            p = subprocess.run([sys.executable, str(path)], capture_output=True, text=True, timeout=120, env=env)
+            rc, outp = p.returncode, p.stdout
+        except subprocess.TimeoutExpired:
+            rc, outp = 1, "script did not finish within 120 s (hang)"
+        ck.evaluations += 1
+        ck.count("repro_scripts")
+        if rc != 0:
+            lines = [ln for ln in outp.splitlines() if "VIOLATION" in ln or "hang" in ln]
+            ck.violation(REPRO_KEYS.get(tag, f"repro:{path.name}"),
+                         f"{path.name}: " + (" | ".join(lines)[:400] or f"exit code {rc}"),
+                         {"relation": "stand-alone regression script of an earlier finding", "script": str(path),
+                          "impl": outp[-1500:]})
 
 
 def direct_drives(ck, m, thorough):
